@@ -472,7 +472,7 @@ def gen_build_ops(g, n):
     if r < 0.12:
       ops.append(dict(op='new', t=g.choice(['Node', 'Node2'])))
     elif r < 0.22:
-      ops.append(dict(op='static', obj=a, name=name, value=g.choice([0, 1, 7, 'tag', None, 'x', True])))
+      ops.append(dict(op='static', obj=a, name=name, value=g.choice([0, 1, 7, 'tag', None, 'x', True, -1, -2])))  # hash(-1) == hash(-2) in CPython
     elif r < 0.30:
       ops.append(dict(op='array', obj=a, name=name, shape=g.choice([[2], [2, 2], []]), fill=g.randrange(-3, 9), jax=g.random() < 0.5))
     elif r < 0.55:
@@ -485,7 +485,13 @@ def gen_build_ops(g, n):
     elif r < 0.80:
       ops.append(dict(op='ref', obj=a, name=name, target=b, kind=g.choice(['node', 'node', 'var'])))
     elif r < 0.92:
-      ops.append(dict(op='container', obj=a, name=name, kind=g.choice(['list', 'dict', 'tuple']), items=[dict(target=g.randrange(64), kind=g.choice(['node', 'var', 'static'])) for _ in range(g.randrange(0, 4))]))
+      if g.random() < 0.12:
+        # a long list of fresh Variables: integer keys beyond 9 (ordering by index, not by text)
+        n_items = g.randrange(11, 15)
+        items = [dict(target=g.randrange(64), kind='newvar', fill=j + 1) for j in range(n_items)]
+        ops.append(dict(op='container', obj=a, name=name, kind=g.choice(['list', 'list', 'tuple']), items=items))
+      else:
+        ops.append(dict(op='container', obj=a, name=name, kind=g.choice(['list', 'dict', 'tuple']), items=[dict(target=g.randrange(64), kind=g.choice(['node', 'var', 'static'])) for _ in range(g.randrange(0, 4))]))
     else:
       ops.append(dict(op='del', obj=a, name=name))
   return ops
@@ -521,7 +527,11 @@ def apply_build_op(h: Heap, op, res=None):
     items = []
     for j, it in enumerate(op['items']):
       key = j if op['kind'] != 'dict' else 'k%d' % j
-      if it['kind'] == 'var' and h.vars:
+      if it['kind'] == 'newvar':
+        items.append((key, ('ref', h.new_var('Param', [2], it['fill'], {}))))
+        if res is not None and j >= 10:
+          res.probe('long_list_container')
+      elif it['kind'] == 'var' and h.vars:
         items.append((key, ('ref', h.vars[it['target'] % len(h.vars)])))
       elif it['kind'] == 'node':
         items.append((key, ('ref', h.node(it['target']))))
